@@ -141,7 +141,9 @@ def check_vec(ctx, config, rule):
     if b:
         I, r = k.run(b)
         ln = [e for e in own(r) if 'ExactSizeIterator' in (e.callee or '') and e.callee.endswith('::len')]
-        k.check('IntoIter::count', 'the exact remaining length', len(ln) == 1 and r.ret == ln[0].ret, '', b.get('span'))
+        from .c13 import intoiter_len_ok
+        okc = (len(ln) == 1 and r.ret == ln[0].ret) or (not ln and r.ret is not None and intoiter_len_ok(r.ret))
+        k.check('IntoIter::count', 'the exact remaining length', okc, '', b.get('span'))
     # ---- retain / dedup / dedup_by_key / splice: compositions with an adapter closure
     b = method(db, 'vec::Vec', 'retain')
     if b:
